@@ -53,7 +53,7 @@ func (w *c11World) specFiles(dir string) (spec, other []string) {
 	return
 }
 
-var c11OpKinds = []string{"create-by-write", "touch", "rewrite-in-place", "append", "tmp-rename-inside", "rename-in-from-outside", "hardlink-in", "rename-away", "rename-to-non-spec", "rename-from-non-spec", "unlink", "mkdir-missing", "rmdir-with-content", "recreate-dir", "create-invalid", "chmod", "truncate", "truncate"}
+var c11OpKinds = []string{"create-by-write", "touch", "rewrite-in-place", "append", "tmp-rename-inside", "rename-in-from-outside", "hardlink-in", "rename-away", "rename-to-non-spec", "rename-from-non-spec", "unlink", "mkdir-missing", "rmdir-with-content", "recreate-dir", "create-invalid", "chmod", "truncate", "truncate", "rmdir-recreate", "rmdir-recreate"}
 
 // do performs one operation; it returns "" when it is not applicable now.
 func (w *c11World) do(kind string) (desc string) {
@@ -180,6 +180,17 @@ func (w *c11World) do(kind string) (desc string) {
 			must(os.WriteFile(filepath.Join(dir, newName()), w.content(true), 0o644))
 		}
 		return kind + " " + dir
+	case "rmdir-recreate":
+		// removed and recreated back to back: faster than anything can look
+		if !exists {
+			return ""
+		}
+		must(os.RemoveAll(dir))
+		must(os.MkdirAll(dir, 0o755))
+		if chance(r, 30) {
+			must(os.WriteFile(filepath.Join(dir, newName()), w.content(true), 0o644))
+		}
+		return "rm -rf + mkdir " + dir
 	case "rmdir-with-content":
 		if !exists {
 			return ""
@@ -243,7 +254,7 @@ func cacheState(c *cdi.Cache, dirs []string) (string, map[string]any) {
 }
 
 func checkC11(c *Ctx) {
-	c.Rule = "seeded histories of 1-12 file-system operations over 1-3 configured directories (+ anchor): create-by-write, touch, rewrite in place, truncate to zero length, append, tmp+rename inside, rename in from a staging directory, hard link in, rename away, rename to/from a non-Spec name, unlink, chmod, create a missing (nested) directory, remove a directory with its content, recreate it; valid and invalid content; pacing per step in {immediately, after yield, after logical quiescence, with the watcher goroutine held so that further operations pile up behind it, from inside a refresh's directory scan (scan.beforeRead hook) so that the change lands after its entry was passed}; observed through ListDevices/GetDevice/GetErrors/InjectDevices only (never Refresh()); oracle: after quiescence, within two rounds of queries, devices, definitions and files in error equal those of a fresh manual cache on the final contents; distinct_nontrivial = distinct (operation-kind sequence, pacing sequence) whose final state differs from the initial one"
+	c.Rule = "seeded histories of 1-12 file-system operations over 1-3 configured directories (+ anchor): create-by-write, touch, rewrite in place, truncate to zero length, append, tmp+rename inside, rename in from a staging directory, hard link in, rename away, rename to/from a non-Spec name, unlink, chmod, create a missing (nested) directory, remove a directory with its content, recreate it (also back to back); valid and invalid content; pacing per step in {immediately, after yield, after logical quiescence, with the watcher goroutine held so that further operations pile up behind it, from inside a refresh's directory scan (scan.beforeRead hook) so that the change lands after its entry was passed}; observed through ListDevices/GetDevice/GetErrors/InjectDevices only (never Refresh()); oracle: after quiescence, within two rounds of queries, devices, definitions and files in error equal those of a fresh manual cache on the final contents; distinct_nontrivial = distinct (operation-kind sequence, pacing sequence) whose final state differs from the initial one"
 	c.Assume("inotify delivers the events of one instance in order and the watcher goroutine handles one event completely before the next (quiescence by sentinel)", "renaming a configured directory itself, symlinks and bind mounts are outside the listed change kinds", "convergence is checked at history end, not at every instant")
 	c.RunCases("hist", c.pick(700, 12000), 4, func(cs *Case) {
 		r := cs.R
